@@ -54,6 +54,32 @@ pub fn seqhdr(bytes: &[u8]) -> String {
     }
 }
 
+/// answer of the real code to one `tables …` request line
+pub fn replay_line(line: &str) -> Option<String> {
+    let t: Vec<&str> = line.split(' ').collect();
+    let n = |i: usize| t.get(i).and_then(|x| x.parse::<u64>().ok());
+    match t.get(1).copied()? {
+        "ll_dec" => Some(pair(guarded(|| sc::lookup_ll_code(n(2).unwrap_or(255) as u8)))),
+        "ml_dec" => Some(pair(guarded(|| sc::lookup_ml_code(n(2).unwrap_or(255) as u8)))),
+        "ll_enc" => Some(triple(&guarded(|| sc::encode_literal_length(n(2).unwrap_or(0) as u32)))),
+        "ml_enc" => Some(triple(&guarded(|| sc::encode_match_len(n(2).unwrap_or(0) as u32)))),
+        "of_enc" => Some(triple(&guarded(|| sc::encode_offset(n(2).unwrap_or(0) as u32)))),
+        "seqnum_enc" => Some(match guarded(|| sc::encode_seqnum(n(2).unwrap_or(0) as usize)) {
+            Ok(b) => format!("ok {}", hex(&b)),
+            Err(_) => "fault".into(),
+        }),
+        "seqhdr" => Some(seqhdr(&unhex(t.get(2)?)?)),
+        "of_hist" => {
+            let mut s = [n(4)? as u32, n(5)? as u32, n(6)? as u32];
+            Some(match guarded(|| sc::do_offset_history(n(2).unwrap_or(0) as u32, n(3).unwrap_or(0) as u32, &mut s)) {
+                Ok(a) => format!("ok {} {} {} {}", a, s[0], s[1], s[2]),
+                Err(_) => "fault".into(),
+            })
+        }
+        _ => None,
+    }
+}
+
 pub fn run(opts: &Opts) -> Run {
     let mut run = Run::new("tables");
     let mut rng = Rng::new(opts.seed);
